@@ -426,7 +426,9 @@ def check_matching(case, v, th, meta, eos, pairs):
         got["t", lev] = call(P.t.findMatching, vw)
         kg, g = got["g", lev]
         kt, t = got["t", lev]
-        cls = f"{branch}/{bucket}" + ("/near-vMin" if near_vmin else "") + ("/cs2=cb2" if eq_cs else "") + f"/{lev}"
+        cls = (f"{branch}/{bucket}" + ("/near-vMin" if near_vmin else "")
+               + ("/vp<1e-3" if (ref is not None and branch != "detonation" and ref.vp < 1e-3 and not near_vmin) else "")
+               + ("/cs2=cb2" if eq_cs else "") + f"/{lev}")
         if kg != "num" or kt != "num":
             v.label(f"matching:{kg}/{kt}")
             if (kg == "num") != (kt == "num") and not near_vmin:
